@@ -54,6 +54,9 @@ func (pry *Priority) SetWeight(w byte) {
 func (pry *Priority) Deserialize(fr *FrameHeader) (err error) {
 	if len(fr.payload) < 5 {
 		err = ErrMissingBytes
+	} else if len(fr.payload) > 5 {
+		// https://httpwg.org/specs/rfc7540.html#rfc.section.6.3
+		err = NewGoAwayError(FrameSizeError, "PRIORITY frame payload is not 5 octets")
 	} else {
 		pry.stream = http2utils.BytesToUint32(fr.payload) & (1<<31 - 1)
 		pry.weight = fr.payload[4]
